@@ -46,7 +46,7 @@ PROPS = {
     "C15": {
         "bin": "px_text", "budget_ms": 30000, "wall_cap": {"quick": 600, "thorough": 2400},
         "rule": "per format (avt, pcb, msg, an1, asc, ata): prefix(<=2, thorough 3).filler.suffix rows over an 8-cell alphabet at width 80 (40 for ATASCII), every row length 0..=width at heights {1,2,25,40} with a non-empty last row, "
-                "every printable character (single and doubled, minus each format's lead-in characters), every ordered pair of (fg 0..15, bg 0..7) attributes, all three screen preparations",
+                "every printable character (single and doubled, minus each format's lead-in characters; ATASCII: minus ESC and the four cursor codes only, every character also inverse and between inverse / normal neighbours), documents that start like a UTF-8 byte order mark and are valid UTF-8, every ordered pair of (fg 0..15, bg 0..7) attributes, all three screen preparations",
         "level_text": "every document of the stated small scope is written by the real writers, parsed by the real loaders and compared cell by cell",
         "level_note": "blink is not compared (the statement lists characters, 16 foreground and 8 background colours only); blank cells on black after the end of a row are not significant; ASCII compares characters only, ATASCII characters and inverse video",
         "technique": "small-scope exhaustive input enumeration with a round-trip oracle",
@@ -145,9 +145,9 @@ PROPS = {
     },
     "C14": {
         "bin": "px_sixel", "budget_ms": 20000, "case_wall_ms": 60000, "judge_budget": True, "wall_cap": {"quick": 600, "thorough": 2400},
-        "rule": "payloads: every string of <=5 (thorough 6) tokens over a 16-token sixel alphabet through Sixel::parse_from; schedules: every interleaving of in-order arrivals, "
+        "rule": "payloads: every string of <=5 (thorough 6) tokens over a 16-token sixel alphabet through Sixel::parse_from (oracles: 4wh bytes; one declaration before the data -> the image is the data rectangle or the declared rectangle, not a mix; a three parameter declaration declares the width only; without declaration every set pixel is inside); schedules: every interleaving of in-order arrivals, "
                 "any-order completions (decode threads held at the cfg gate and released one by one) and 0..P polls in every gap for k<=4 images in flight x image-to-arrival assignments, "
-                "the count cross-checked against an independent DP; oracle after every poll against a sequential reference model; non-trivial = payload sets at least one pixel / every schedule",
+                "the count cross-checked against an independent DP; oracle after every poll against a sequential reference model, incl. the returned updated flag against what the poll put on the screen; the same images as an .ans file (every arrival order of 1..=4 images): image layers bottom to top in arrival order; non-trivial = payload sets at least one pixel / every schedule",
         "level_text": "all schedules of the polling protocol for k<=4 in-flight decodes are executed on the real spawn/queue/poll code under a harness-owned gate, and all payloads up to the depth bound are decoded by the real decoder",
         "level_note": "the gate hook (cfg icy_engine_verif) shadows the DCS string inside execute_dcs; decode completion is observed through JoinHandle::is_finished of the public queue; no memory-model interleavings are claimed (no shared mutable state between decode and poller)",
         "technique": "exhaustive schedule enumeration (completion orders x poll placements) of real threads under a controlled gate + bounded exhaustive payload enumeration against a reference model",
@@ -165,8 +165,8 @@ PROPS = {
     },
     "C17": {
         "bin": "px_fonts", "budget_ms": 30000, "wall_cap": {"quick": 600, "thorough": 2400},
-        "rule": "bitmap fonts: every height 1..=32 x (6 (thorough 12) synthetic seeds whose glyph rows take every byte value, a rotation font, constant fonts 0x00/0xFF/0x1B/0x36) + every built-in font page 0..=42 + the default glyphs under another name with a glyph edited in place + the 16 SAUCE fonts, each through "
-                "PSF2 (incl. rewrite stability), raw data via create_8 / from_basic / from_bytes, the DCS font sequence into slots 0/1/42/255 through the ANSI parser and a slot redefined three times within one session, also directly after other string-type sequences (macro, sixel, OSC, APS), XBin (1 and 2 fonts, compressed and not), ADF, IDF and IcyDraw (1 and 2 fonts); "
+        "rule": "bitmap fonts: every height 1..=32 x (6 (thorough 12) synthetic seeds whose glyph rows take every byte value, a rotation font, constant fonts 0x00/0xFF/0x1B/0x36) + every built-in font page 0..=42 + the default glyphs under another name with a glyph edited in place + fonts whose first glyph starts with the PSF1 / PSF2 magic numbers (3 kinds x every height) + the 16 SAUCE fonts, each through "
+                "PSF2 (incl. rewrite stability), raw data via create_8 / from_basic / from_bytes, the DCS font sequence into slots 0/1/42/255 through the ANSI parser and a slot redefined three times within one session, also directly after other string-type sequences (macro, sixel, OSC, APS), XBin (1 and 2 fonts, compressed and not), ADF, IDF and IcyDraw (1 and 2 fonts), and ADF / IDF / XBin documents whose cells all use font page 1 (refused, or the font of that page comes back); "
                 "512-glyph PSF2 fonts of every height; TheDraw: every glyph size 1..=30 x 1..=12 x 3 types x 4 row styles, every number 0..=94 of defined glyphs x 3 placements x 3 types, names of 0..=12 characters, spacing 0..=40, "
                 "94 maximal glyphs (beyond the 16 bit offsets), bundles of 1..=34 mixed fonts x 3 type rotations; non-trivial = every font",
         "level_text": "every font of the stated small scope is pushed through every real encoder / decoder pair and compared bit by bit; TheDraw fonts are compared by name, type, spacing, has_char, rendered glyphs and re-serialised bytes",
